@@ -8,14 +8,14 @@ export GOFLAGS=-mod=mod GOPROXY=off
 wt=/dev/shm/seedwt-$$-$RANDOM
 git -C /repo worktree add -q --detach "$wt" HEAD || exit 3
 trap 'git -C /repo worktree remove --force "$wt" 2>/dev/null; rm -f /verif/bin/*-$(echo -n "$wt" | md5sum | cut -c1-8)*' EXIT
-cp "$sd/demo_test.go" "$wt/$dest"
+mkdir -p "$(dirname "$wt/$dest")"; cp "$sd/demo_test.go" "$wt/$dest"
 cd "$wt"
-clean=$(timeout 1500 go test -vet=off -count=1 -run "$rx" "$pkg" 2>&1 | grep -E "^(ok|FAIL|---)" | tr '\n' ' ')
+clean=$(timeout 1500 go test ${SEED_TEST_FLAGS:-} -vet=off -count=1 -run "$rx" "$pkg" 2>&1 | grep -E "^(ok|FAIL|---)" | tr '\n' ' ')
 if ! git apply --whitespace=nowarn "$sd/patch.diff" 2>/dev/null; then
   if ! patch -p1 -s < "$sd/patch.diff"; then echo "SEED $sd: PATCH DOES NOT APPLY to HEAD"; exit 4; fi
 fi
 if ! go build ./... 2>/dev/null; then echo "SEED $sd: DOES NOT BUILD"; exit 5; fi
-mut=$(timeout 1500 go test -vet=off -count=1 -run "$rx" "$pkg" 2>&1 | grep -E "^(ok|FAIL|---)" | tr '\n' ' ')
+mut=$(timeout 1500 go test ${SEED_TEST_FLAGS:-} -vet=off -count=1 -run "$rx" "$pkg" 2>&1 | grep -E "^(ok|FAIL|---)" | tr '\n' ' ')
 echo "SEED $sd demo clean: [$clean] mutated: [$mut]"
 rm -f "$wt/$dest"
 cd /verif
